@@ -372,7 +372,7 @@ Definition model_step (b : backend) (s : st) (o : op) : st * out :=
   | ReadFile p =>
       match open_at b (openfile_depth b) (heap s) p rdonly 420%N with
       | OpErr e => (s, OErr e)
-      | OpNode h i => (seth s h, OBytes (n_data (get h i)))
+      | OpNode h i => (s, OBytes (n_data (get h i)))        (* nothing is created without O_CREATE *)
       end
   | WriteFile p bs perm =>
       match open_at b (openfile_depth b) (heap s) p rdwr_create_trunc perm with
